@@ -1,16 +1,26 @@
 """bitsets.combos.shortlex / MemberBits.powerset under contract (C18 used to ASSUME: "powerset() yields every subset once").
 
 combos.shortlex(start, other) with `other` = a list of atoms 2^p(0), ..., 2^p(m-1), p strictly increasing, none of them in `start`:
-  proved   every set  start + (a subset of the atoms)  is yielded exactly once, `start` first, and the sizes of the yielded sets never decrease
-           ("shortest first");
-  assumed  the order among sets of the same size (lexicographic by position): bounded on the run-time side only.
+  proved   every set  start + (a subset of the atoms)  is yielded exactly once, `start` first, and the sequence of yielded sets is STRICTLY
+           increasing in the documented short-lexicographic order
+               less(a, b) := card(a) < card(b)  or  (card(a) = card(b) and a != b and bit(a, lo)),   lo = the lowest position where a, b differ
+           (obligation `yield/shortlex-order` at every yield, against the ghost `last` = the set yielded before).  `less` is a strict total order
+           (lemma.powerset.order: irreflexive, total, transitive), so with "every set once" the whole enumeration order is determined.
 
 Ghost state: the deque as an array  Qc(i), Qs(i)  (set, index of the first remaining atom: `other` lists are suffixes of the atom list)
 for head <= i < tail (FIFO: popleft = head+1, append = tail+1);  Y the yielded sets;  maxc the size of the largest set yielded so far.
   owns(cur, s, v)   v is a proper superset of cur within the family whose new members are atoms with index >= s
 Outer invariant  A entries well-formed (no atom with index >= s in cur);  C every set of the family is yielded or owned by an entry;
                  D owners are unique and yielded sets have no owner;  S sizes along the queue never decrease and lie in [maxc-1, maxc]
-Inner invariant  (entry (cur, s) popped, atoms s .. j-1 handled)  Y = Y0 + {cur+a_t | s <= t < j};  queue = queue0 + children (cur+a_t, t+1), t < min(j, m-1)
+Inner invariant  (entry (cur, s) popped, atoms s .. j-1 handled)  Y = Y0 + {cur+a_t | s <= t < j};  queue = queue0 + children (cur+a_t, t+1), t < min(j, m-1);
+                 last = cur + a_(j-1) once j > s
+Order            lessb(a, b, s) := less(a, b) where, for equal sizes, the lowest difference is moreover an atom with index < s (so that it lies
+                 below every atom that can still be added to b when (b, s) is an entry: the order of two entries is inherited by their children)
+                 O1 the queue is sorted: lessb(Qc(i), Qc(k), Qs(k)) for i < k;   O2 lessb(last, Qc(k) + a_t, t+1)  and
+                 O3 lessb(Qc(i), Qc(k) + a_t, t+1)  for all entries i, k and atom indexes t >= Qs(k): `last` and every entry come before every
+                 set still to be yielded.  O1-O3 are assumed under a trigger token and used by explicit instances only.
+                 lemma.powerset.order: (i) siblings  cur + a_t  before  cur + a_u  for t < u;  (ii) cousins: lexb(c1, c2, s2) is inherited by
+                 c1 + a_t1, c2 + a_t2;  no transitivity is needed for the invariants (all pairwise).
 """
 from z3 import And, BoolSort, BoolVal, ForAll, Function, If, Implies, Int, IntSort, IntVal, Ints, MultiPattern, Not, Or
 
@@ -76,6 +86,43 @@ class PW:
                                    patterns=[T.card(bor(c, atomv(x)))])),
         ]
 
+    # ---- the short-lexicographic order (size, then member positions: the set that owns the lowest differing position comes first)
+    def lo(self, a, b):
+        """the lowest position at which a and b differ (for a != b)"""
+        return tz(bor(band(a, bnot(b)), band(b, bnot(a))))
+
+    def lexless(self, a, b):
+        return And(a != b, bit(a, self.lo(a, b)))
+
+    def less(self, a, b):
+        """the documented order of combos.shortlex"""
+        return Or(self.card(a) < self.card(b), And(self.card(a) == self.card(b), self.lexless(a, b)))
+
+    def lexb(self, a, b, s):
+        """lexless(a, b) for sets of the family, with a bound: the lowest difference is an atom with index below s
+        (below every atom that may still be added to b when (b, s) is an entry)"""
+        d = self.lo(a, b)
+        return And(a != b, bit(a, d), Not(bit(b, d)), self.isatom(d), self.idx(d) < s)
+
+    def lessb(self, a, b, s):
+        return Or(self.card(a) < self.card(b), And(self.card(a) == self.card(b), self.lexb(a, b, s)))
+
+    def st_card(self, cur, s, t):
+        return Implies(And(self.wf(cur, s), s <= t, t < self.m), self.card(self.child(cur, t)) == self.card(cur) + 1)
+
+    def st_siblings(self, cur, s, t, u):
+        """(i) two children of one entry: the one for the earlier atom comes first"""
+        T = self
+        return Implies(And(T.wf(cur, s), s <= t, t < u, u < T.m),
+                       And(T.card(T.child(cur, t)) == T.card(cur) + 1, T.card(T.child(cur, u)) == T.card(cur) + 1,
+                           T.lexb(T.child(cur, t), T.child(cur, u), u + 1)))
+
+    def st_cousins(self, c1, s1, t1, c2, s2, t2):
+        """(ii) children of two entries inherit the order of their parents"""
+        T = self
+        return Implies(And(T.wf(c1, s1), T.wf(c2, s2), s1 <= t1, t1 < T.m, s2 <= t2, t2 < T.m, T.lexb(c1, c2, s2)),
+                       T.lexb(T.child(c1, t1), T.child(c2, t2), t2 + 1))
+
     # ---- lemma statements
     def st_child_exists(self, cur, s, v):
         T = self
@@ -139,6 +186,64 @@ def _lemmas():
 register(Unit('lemma.powerset.tree', None, None, _lemmas, assumptions=['BITS theory, definitions of family / owns / wf (contracts/bitsets_powerset.py)']))
 
 
+def _order_lemmas():
+    T = PW()
+
+    def prove(path):
+        cur, s, t, u, c1, s1, t1, c2, s2, t2 = Ints('cur s t u c1 s1 t1 c2 s2 t2')
+        n0 = len(path.pc)
+
+        def suppose(st):
+            """the hypothesis of the statement `st` (an implication), taken from the statement itself"""
+            del path.pc[n0:]
+            path.assume(st.arg(0))
+            return st
+        # ---- size of a child
+        st = suppose(T.st_card(cur, s, t))
+        path.oblige('card/new-member', 'lemma', And(cur >= 0, T.p(t) >= 0, Not(bit(cur, T.p(t)))))
+        path.oblige('card', 'lemma', st)
+        # ---- (i) siblings
+        st = suppose(T.st_siblings(cur, s, t, u))
+        a, b = T.child(cur, t), T.child(cur, u)
+        path.assume([T.st_card(cur, s, t), T.st_card(cur, s, u)])
+        path.oblige('siblings/positions', 'lemma', And(T.p(t) < T.p(u), bit(a, T.p(t)), Not(bit(b, T.p(t))), T.isatom(T.p(t))))
+        path.oblige('siblings/lowest-difference', 'lemma', T.lo(a, b) == T.p(t))
+        path.oblige('siblings', 'lemma', st)
+        # ---- (ii) cousins
+        st = suppose(T.st_cousins(c1, s1, t1, c2, s2, t2))
+        d = T.lo(c1, c2)
+        a, b = T.child(c1, t1), T.child(c2, t2)
+        path.oblige('cousins/difference-is-an-earlier-atom', 'lemma', And(T.idx(d) < s1, T.idx(d) < s2, 0 <= T.idx(d), T.p(T.idx(d)) == d))
+        path.oblige('cousins/difference-below-the-new-members', 'lemma', And(d < T.p(t1), d < T.p(t2)))
+        path.oblige('cousins/children-differ-there', 'lemma', And(bit(a, d), Not(bit(b, d))))
+        path.oblige('cousins/lowest-difference', 'lemma', T.lo(a, b) == d)
+        path.oblige('cousins', 'lemma', st)
+        del path.pc[n0:]
+        # ---- the bounded form is the documented order
+        path.oblige('bounded-form-is-the-order', 'lemma', Implies(T.lessb(c1, c2, s), T.less(c1, c2)))
+        # ---- `less` is a strict total order on the naturals (so "strictly increasing" + "every set once" determine the whole sequence)
+        a, b, c = Ints('a b c')
+        path.assume(And(a >= 0, b >= 0, c >= 0))
+        sd = lambda x, y: bor(band(x, bnot(y)), band(y, bnot(x)))
+        path.assume([bits.ext_instance(x, y, path.fresh_int('wext')) for x, y in ((a, b), (b, c), (a, c), (sd(a, b), sd(b, a)))])
+        path.oblige('order/differing-position', 'lemma', Implies(a != b, And(sd(a, b) != 0, bit(a, T.lo(a, b)) != bit(b, T.lo(a, b)))))
+        path.oblige('order/lowest-difference-is-symmetric', 'lemma', T.lo(a, b) == T.lo(b, a))
+        path.oblige('order/total', 'lemma', Implies(a != b, T.lexless(a, b) != T.lexless(b, a)))
+        H = And(T.lexless(a, b), T.lexless(b, c))
+        d1, d2 = T.lo(a, b), T.lo(b, c)
+        d = If(d1 < d2, d1, d2)
+        path.oblige('order/transitive: the lower of the two differences', 'lemma', Implies(H, And(a != c, bit(a, d), Not(bit(c, d)), d1 != d2)))
+        path.oblige('order/transitive: lowest difference of the outer pair', 'lemma', Implies(H, T.lo(a, c) == d))
+        path.oblige('order/transitive', 'lemma', Implies(H, T.lexless(a, c)))
+        path.oblige('order/strict-total', 'lemma', And(Not(T.less(a, a)), Or(a == b, T.less(a, b), T.less(b, a)), Not(And(T.less(a, b), T.less(b, a))),
+                                                       Implies(And(T.less(a, b), T.less(b, c)), T.less(a, c))))
+    return T.axioms(), prove
+
+
+register(Unit('lemma.powerset.order', None, None, _order_lemmas,
+              assumptions=['BITS theory, definitions of wf / lexb (contracts/bitsets_powerset.py)', 'card(c + {x}) = card(c) + 1 for x not in c (Finset.card_insert_of_notMem)']))
+
+
 # ---------------------------------------------------------------------------------------------------------------------
 # combos.shortlex(start, other, excludestart=False)
 
@@ -155,7 +260,9 @@ def _shortlex_unit():
                 return Function('%s!%d' % (name, next(cnt)), *([I] * n + [rng]))
             G = path.ghost
             i_, v_, t_ = Ints('i_ v_ t_')
-            st = {'head': IntVal(0), 'tail': IntVal(0), 'Qc': fn('Qc', 1), 'Qs': fn('Qs', 1), 'Y': fn('Y', 1, B), 'maxc': T.card(s0)}
+            st = {'head': IntVal(0), 'tail': IntVal(0), 'Qc': fn('Qc', 1), 'Qs': fn('Qs', 1), 'Y': fn('Y', 1, B), 'maxc': T.card(s0),
+                  'last': IntVal(0), 'has': BoolVal(False)}       # the set yielded last, if any
+            hb = Function('hint!%d' % next(cnt), B, B)
             path.assume(ForAll([v_], Not(st['Y'](v_)), patterns=[st['Y'](v_)]))
             excl = path.fresh_bool('excludestart')
 
@@ -171,6 +278,7 @@ def _shortlex_unit():
                 def getitem(pp, a, kw):
                     i = a[-1]
                     pp.oblige('index@other', 'index', And(i.t == 0, s < m) if isinstance(i, IntV) else BoolVal(False))
+                    G['first'] = s
                     return IntV(atomv(p(s)), 'Bits')
                 o.fields['__getitem__'] = FuncV('list.__getitem__', getitem)
 
@@ -186,11 +294,16 @@ def _shortlex_unit():
             queue = ObjV('deque', {}, name='queue')
             queue.truth_fn = lambda: st['head'] < st['tail']
 
-            def push(pp, cur, s):
+            def push(pp, cur, s, left=False):
                 Qc, Qs = fn('Qc', 1), fn('Qs', 1)
-                pp.assume(ForAll([i_], Qc(i_) == If(i_ == st['tail'], cur, st['Qc'](i_)), patterns=[Qc(i_)]))
-                pp.assume(ForAll([i_], Qs(i_) == If(i_ == st['tail'], s, st['Qs'](i_)), patterns=[Qs(i_)]))
-                st.update(Qc=Qc, Qs=Qs, tail=st['tail'] + 1)
+                at = st['head'] - 1 if left else st['tail']
+                pp.assume(ForAll([i_], Qc(i_) == If(i_ == at, cur, st['Qc'](i_)), patterns=[Qc(i_)]))
+                pp.assume(ForAll([i_], Qs(i_) == If(i_ == at, s, st['Qs'](i_)), patterns=[Qs(i_)]))
+                st.update(Qc=Qc, Qs=Qs)
+                if left:
+                    st['head'] = at
+                else:
+                    st['tail'] = at + 1
 
             def deque(pp, a, kw):
                 (lst,) = a
@@ -201,24 +314,34 @@ def _shortlex_unit():
                     push(pp, lst.items[0].items[0].t, lst.items[0].items[1].s)
                 return queue
 
-            def popleft(pp, a, kw):
-                pp.oblige('popleft/non-empty', 'pre@call', st['head'] < st['tail'])
-                h = st['head']
-                cur, s = st['Qc'](h), st['Qs'](h)
-                G['cur'] = (cur, s, h)
-                G['at_pop'] = dict(st)
-                st['head'] = h + 1
-                return TupleV([IntV(cur, 'Bits'), suffix(s)])
+            def pop_at(left):
+                def pop(pp, a, kw):
+                    pp.oblige('%s/non-empty' % ('popleft' if left else 'pop'), 'pre@call', st['head'] < st['tail'])
+                    h = st['head'] if left else st['tail'] - 1
+                    cur, s = st['Qc'](h), st['Qs'](h)
+                    G['cur'] = (cur, s, h)
+                    G['at_pop'] = dict(st)
+                    if left:
+                        st['head'] = h + 1
+                    else:
+                        st['tail'] = h
+                    return TupleV([IntV(cur, 'Bits'), suffix(s)])
+                return pop
 
-            def append(pp, a, kw):
-                (e,) = a
-                ok = isinstance(e, TupleV) and len(e.items) == 2 and isinstance(e.items[0], IntV) and getattr(e.items[1], 'cls', None) == 'AtomSuffix'
-                pp.oblige('append/entry-shape', 'pre@call', BoolVal(ok))
-                if ok:
-                    push(pp, e.items[0].t, e.items[1].s)
-                return NONE
-            queue.fields['popleft'] = FuncV('deque.popleft', popleft)
-            queue.fields['append'] = FuncV('deque.append', append)
+            def append_at(left):
+                def append(pp, a, kw):
+                    (e,) = a
+                    ok = isinstance(e, TupleV) and len(e.items) == 2 and isinstance(e.items[0], IntV) and getattr(e.items[1], 'cls', None) == 'AtomSuffix'
+                    pp.oblige('append/entry-shape', 'pre@call', BoolVal(ok))
+                    if ok:
+                        push(pp, e.items[0].t, e.items[1].s, left)
+                    return NONE
+                return append
+            # both ends of the deque are modelled; the invariants below are those of the FIFO use (popleft / append)
+            queue.fields['popleft'] = FuncV('deque.popleft', pop_at(True))
+            queue.fields['pop'] = FuncV('deque.pop', pop_at(False))
+            queue.fields['append'] = FuncV('deque.append', append_at(False))
+            queue.fields['appendleft'] = FuncV('deque.appendleft', append_at(True))
             collections = ObjV('module', {'deque': FuncV('collections.deque', deque)}, name='collections')
 
             def on_yield(pp, env_, val):
@@ -228,10 +351,20 @@ def _shortlex_unit():
                     return
                 pp.oblige('yield/exactly-once: not yielded before', 'yield', Not(st['Y'](val.t)))
                 pp.oblige('yield/shortest-first: size not below the sizes yielded before', 'yield', T.card(val.t) >= st['maxc'])
+                if G.get('cur') is not None and G.get('first') is not None:
+                    # the first set of an entry: after `last` by invariant O2 for the entry; a later one: after its elder sibling (i)
+                    c0, s_e, h = G['cur']
+                    j = G['first']
+                    use(pp, 'O2', h, s_e)
+                    pp.assume([T.st_siblings(c0, s_e, j - 1, j), T.st_card(c0, s_e, j)])
+                    pp.oblige('yield/shortlex-order (bounded form)', 'yield', Implies(st['has'], T.lessb(st['last'], val.t, j + 1)))
+                pp.oblige('yield/shortlex-order: after the set yielded before (smaller, or same size and owner of the lowest differing position)', 'yield',
+                          Implies(st['has'], T.less(st['last'], val.t)))
                 Y2 = fn('Y', 1, B)
                 pp.assume(ForAll([v_], Y2(v_) == Or(v_ == val.t, st['Y'](v_)), patterns=[Y2(v_), st['Y'](v_)]))
                 st['Y'] = Y2
                 st['maxc'] = T.card(val.t)
+                st['last'], st['has'] = val.t, BoolVal(True)
                 G['yielded_start'] = G.get('yielded_start') or val.t.eq(s0)
 
             # ---- invariants
@@ -241,8 +374,22 @@ def _shortlex_unit():
                 cs = [path.fresh_int(str(v)) for v in vs]
                 return body(*cs), cs
 
+            def qtok(phase, name, vs, body):
+                """an invariant that is used by explicit instances only: where it is assumed its trigger is a token that occurs nowhere else"""
+                if phase == 'assume':
+                    tok = G['tok.' + name] = fn('use.' + name, len(vs), B)
+                    return ForAll(vs, body(*vs), patterns=[tok(*vs)]), None
+                cs = [path.fresh_int(str(v)) for v in vs]
+                return body(*cs), cs
+
+            def use(pp, name, *args):
+                """instance of the invariant `name` of the outer loop (as assumed at the current pop) for the given terms"""
+                if ('tok.' + name) in G:
+                    pp.assume(hb(G['tok.' + name](*args)))
+
             def outer(e, phase):
                 Qc, Qs, Y, head, tail, maxc = st['Qc'], st['Qs'], st['Y'], st['head'], st['tail'], st['maxc']
+                last, has = st['last'], st['has']
                 cur = G.get('cur') if phase == 'preserve' else None
                 out = [('Q pointers', And(0 <= head, head <= tail))]
                 f, cs = q(phase, [i_], lambda i: Implies(inq(i), T.wf(Qc(i), Qs(i))), lambda i: [Qc(i), Qs(i)])
@@ -300,10 +447,46 @@ def _shortlex_unit():
                 out.append(('S2 sizes within one of the largest yielded', f))
                 if phase != 'entry':
                     out.append(('Y0 start yielded unless excluded', Y(s0) == Not(excl)))
+                # ---- the order.  O1 the queue is sorted;  O2/O3 `last` and every entry come before every set still to be yielded for an entry
+                u_ = Int('u_')
+                zq = G.get('at_pop')
+                if cur:
+                    c0, s_e, h = cur
+                    t0 = zq['tail']
+                    ati = lambda i: i - t0 + s_e          # the atom index of the child at queue position i >= t0
+                    wfc = lambda u: T.st_child_inside(c0, s_e, u, IntVal(0))      # wf of the child for atom index u
+                f, cs = qtok(phase, 'O1', [i_, t_], lambda i, k: Implies(And(inq(i), inq(k), i < k), T.lessb(Qc(i), Qc(k), Qs(k))))
+                if cs and cur:
+                    i, k = cs
+                    use(path, 'O1', i, k)
+                    use(path, 'O3', i, h, ati(k))
+                    path.assume(T.st_siblings(c0, s_e, ati(i), ati(k)))
+                out.append(('O1 the queue is sorted (size, then position of the members)', f))
+                f, cs = qtok(phase, 'O2', [i_, t_], lambda k, t: Implies(And(has, inq(k), Qs(k) <= t, t < m), T.lessb(last, T.child(Qc(k), t), t + 1)))
+                if phase == 'entry':
+                    path.assume(T.st_card(s0, IntVal(0), cs[1]))
+                if cs and cur:
+                    k, t = cs
+                    use(path, 'O2', k, t)
+                    use(path, 'O1', h, k)
+                    path.assume([T.st_cousins(c0, s_e, m - 1, zq['Qc'](k), zq['Qs'](k), t), T.st_card(c0, s_e, m - 1), T.st_card(zq['Qc'](k), zq['Qs'](k), t),
+                                 wfc(ati(k)), T.st_card(c0, s_e, ati(k)), T.st_card(T.child(c0, ati(k)), ati(k) + 1, t)])
+                out.append(('O2 the set yielded last comes before every set still to be yielded', f))
+                f, cs = qtok(phase, 'O3', [i_, t_, u_], lambda i, k, t: Implies(And(inq(i), inq(k), Qs(k) <= t, t < m), T.lessb(Qc(i), T.child(Qc(k), t), t + 1)))
+                if phase == 'entry':
+                    path.assume(T.st_card(s0, IntVal(0), cs[2]))
+                if cs and cur:
+                    i, k, t = cs
+                    use(path, 'O3', i, k, t)
+                    use(path, 'O1', h, k)
+                    path.assume([T.st_cousins(c0, s_e, ati(i), zq['Qc'](k), zq['Qs'](k), t), T.st_card(c0, s_e, ati(i)), T.st_card(zq['Qc'](k), zq['Qs'](k), t),
+                                 wfc(ati(k)), T.st_card(c0, s_e, ati(k)), T.st_card(T.child(c0, ati(k)), ati(k) + 1, t)])
+                out.append(('O3 every entry comes before every set still to be yielded', f))
                 return out
             outer_spec = LoopSpec(outer, phased=True,
                                   ghost_havoc=lambda pp, env_: st.update(head=pp.fresh_int('head'), tail=pp.fresh_int('tail'), Qc=fn('Qc', 1), Qs=fn('Qs', 1),
-                                                                         Y=fn('Y', 1, B), maxc=pp.fresh_int('maxc')))
+                                                                         Y=fn('Y', 1, B), maxc=pp.fresh_int('maxc'),
+                                                                         last=pp.fresh_int('last'), has=pp.fresh_bool('has')))
             outer_spec.modifies = ['queue']
 
             def inner(e, phase):
@@ -331,16 +514,19 @@ def _shortlex_unit():
                     path.assume(T.st_child_inside(c0, s_e, j - 1, T.child(c0, j - 1)))
                 out.append(('Y = Y at pop + sets yielded for the handled atoms', f))
                 out.append(('maxc', st['maxc'] == If(j > s_e, T.card(c0) + 1, z['maxc'])))
+                out.append(('last', And(st['last'] == If(j > s_e, T.child(c0, j - 1), z['last']), st['has'] == Or(j > s_e, z['has']))))
                 return out
 
             def inner_havoc(pp, env_):
-                st.update(tail=pp.fresh_int('tail'), Qc=fn('Qc', 1), Qs=fn('Qs', 1), Y=fn('Y', 1, B), maxc=pp.fresh_int('maxc'))
+                st.update(tail=pp.fresh_int('tail'), Qc=fn('Qc', 1), Qs=fn('Qs', 1), Y=fn('Y', 1, B), maxc=pp.fresh_int('maxc'),
+                          last=pp.fresh_int('last'), has=pp.fresh_bool('has'))
             inner_spec = LoopSpec(inner, phased=True, ghost_havoc=inner_havoc)
 
             def use_lemmas(pp, e):
                 c0, s_e, h = G['cur']
-                j = e.val('other').s
-                pp.assume([T.st_child_inside(c0, s_e, j, T.child(c0, j)), T.st_child_inside(c0, s_e, j, IntVal(0))])
+                j = G.get('first')          # the atom index of `first` (`other` has been advanced already)
+                if j is not None:
+                    pp.assume([T.st_child_inside(c0, s_e, j, T.child(c0, j)), T.st_child_inside(c0, s_e, j, IntVal(0))])
             other0 = suffix(IntVal(0))
             loops = {'globals': dict(lib.builtins(), collections=collections), 0: outer_spec, 1: inner_spec, 'on_yield': on_yield,
                      'havoc_queue': lambda pp, cur: queue, 'havoc_other': lambda pp, cur: suffix(pp.fresh_int('j')),
@@ -364,7 +550,7 @@ if COMBOS:
                   assumptions=['requires other = a list of atoms with strictly increasing positions, none of them in start (what MemberBits.powerset passes: unit bitsets.MemberBits.powerset)',
                                'collections.deque is FIFO (array model head/tail); list slicing other[1:] = the suffix',
                                'card(c + {x}) = card(c) + 1 for x not in c (Finset.card_insert_of_notMem)',
-                               'the order among sets of equal size is NOT proved (bounded)', 'termination not proved'],
+                               'siblings / cousins / card instances: lemma.powerset.order', 'termination not proved'],
                   linkage=[(LINK + 'combos.shortlex', None)], max_paths=600))
 
 
